@@ -284,12 +284,20 @@ class DataConnection(Connection, abc.ABC):
                 "exception while disconnecting : %r", exc, extra=self.__dict__)
 
         finally:
-            await self.set_state(ConnectionState.CLOSED, close_reason=reason)
-            # Because disconnect can be called when read failed setting the
-            # reader task to none should be done last
-            self._reader_task = None
-            self._reader = None
-            self._writer = None
+            try:
+                # The task running this method can get cancelled by the handling
+                # of the CLOSING state (queued message, server ping, wishlist
+                # search that fails to send). All listeners should still be
+                # notified of the CLOSED state
+                await asyncio.shield(
+                    self.set_state(ConnectionState.CLOSED, close_reason=reason))
+
+            finally:
+                # Because disconnect can be called when read failed setting the
+                # reader task to none should be done last
+                self._reader_task = None
+                self._reader = None
+                self._writer = None
 
     def start_reader_task(self):
         """Starts the message reader task"""
